@@ -17,6 +17,24 @@ CLAIMED = {
          "abs is *defined* by representation axioms (rep*) and the Val vocabulary of /verif/specs/10-tla.spec is trusted as a definition; benbjohnson/immutable is modelled (maps keyed by abs through tla.ValueHasher, iterators by a seen-set); "
          "closed world for tla.impl; operators not yet under contract are listed in evidence under not_under_contract and are NOT covered: SUBSET, UNION, Cardinality, Len, Seq, Assert, ToString, ^, quantifiers, CHOOSE, comprehension, EXCEPT, cross product, function/record sets.",
          "contract-based deductive verification: WP over go/ssa, seen-set loop invariants, inductive/nonlinear lemmas, z3/cvc5"),
+ "C01": ("Deductive proof of the critical-section protocol of the runtime core: LocalArchetypeResource keeps a snapshot discipline (Abort restores the value of the last commit, Commit publishes, Read/Write never touch the snapshot); "
+         "MPCalContext.commit calls PreCommit on every touched resource before any Commit (ordering obligation at every Commit call), commits none and keeps the dirty set intact if any pre-commit yields an error, otherwise commits all and empties the set; "
+         "MPCalContext.abort calls Abort on every touched resource and empties the set; ArchetypeInterface.Read/Write put the handle into the dirty set before the resource or any sub-resource is touched (obligation at every Index/ReadValue/WriteValue call). "
+         "Resources are called through an open-world interface contract (anything may change except the context's own bookkeeping).",
+         "NOT covered, hence not decided: MPCalContext.Run's retry loop itself (select + dynamically dispatched section body), and the refinement of the interface contract by the resources of package resources (IncMap, HashMap, channels, mailboxes, localshared, persistent, file, CRDT, 2PC, nested archetype) and systems/raftkvs; "
+         "trace.* and VClockSink are given frame-only assumed contracts; calls through ArchetypeResource assume implementations outside package distsys cannot touch MPCalContext's unexported fields (Go visibility); the composition 'protocol + per-resource snapshot => atomicity' is the argument of DESIGN.md section 3 (C01), not a mechanised lemma.",
+         "contract-based deductive verification: WP over go/ssa, open-world interface contracts with call-tracking ghost sets, seen-set invariants for map ranges, z3/cvc5"),
+ "C05": ("Deductive proof that Value.Equal decides equality of the abstract value (hence is an equivalence and ignores construction order) for all seven representations including the causal wrapper, and that Value.Hash and ValueHasher compute a function H of the abstract value "
+         "(XOR-fold for sets and functions, sequential fold for tuples), so equal values hash equally and the immutable maps keyed through ValueHasher agree with equality; WrapCausal/StripVClock keep the abstract value.",
+         "abs is defined by the representation axioms rep*; H is defined by the axioms hashOfDef/xorOn*/tupHash* (folds over unordered collections axiomatised by their insert step); Len() of immutable maps is the cardinality of the key set (assumed); fnv1a functions are pure. "
+         "NOT covered: gob encode/decode round trip, String() as a TLA+ expression, hashmap.HashMap (these clauses of the statement are not decided by this check).",
+         "contract-based deductive verification: closed-world dispatch over the representation types, seen-set loop invariants, z3/cvc5"),
+ "C12": ("Deductive proof for the grow-only counter: Init/Read/Write/Merge against the partial-map view (Merge = pointwise max on the union of keys, Write adds to one slot, Read = wrapped sum), and, as pure lemmas over those contracts, that Merge is commutative, associative and idempotent and Write (non-negative, no overflow) is an inflation.",
+         "NOT covered: AWORSet, LWWSet and their gob pairs (not decided by this check; two genuine defects in them are recorded in DESIGN.md section 4 from probes, not from this check); the sum over an unordered map is axiomatised by its insert step; counts are int32 with wrap-around modelled.",
+         "contract-based deductive verification: functional contracts + semilattice lemmas, z3/cvc5"),
+ "C17": ("Deductive proof, by a monitor invariant on runStateLock (thread-modular: every lock region re-establishes it, so every interleaving of Stop/Run regions does), that at most one exit request is ever sent (so the send under the lock cannot block), awaitExit is closed at most once and only when the context leaves or skips the running phase, a second Run is refused, and that cleanupResources calls Close on every registered resource.",
+         "sync.Mutex gives mutual exclusion; channels are modelled by ghost capacity / total-sends / closed state; requestExit is written only by the running Run (declared 'keeps'); Run's loop body, the blocking behaviour of '<-awaitExit' (liveness: every Stop returns) and map-resource element Close (IncMap/HashMap) are NOT covered.",
+         "contract-based deductive verification: monitor invariants (Owicki-Gries style) over go/ssa, ghost channel state, z3/cvc5"),
 }
 
 NOT_APPLICABLE = {
